@@ -15,13 +15,13 @@ use std::collections::HashSet;
 pub fn family(th: bool) -> Vec<(String, Envelope)> {
     let key = bind::key0();
     let mut out: Vec<(String, Envelope)> = vec![];
-    let w = if th { 5 } else { 4 };
+    let w = if th { 6 } else { 5 };
     for (ti, m) in families::plain(w).iter().enumerate() {
         let e = bind::build(m, 0);
         out.push((format!("tree{ti}:{}", m.show()), e.clone()));
         let ds = m.distinct_digests(); let k = ds.len();
         for mask in 1u32..(1u32 << k) {
-            if !th && mask.count_ones() > 2 && m.weight() > 3 { continue }
+            if mask.count_ones() > (if th { 3 } else { 2 }) && m.weight() > 4 { continue }
             let t = bind::dset(&(0..k).filter(|i| mask >> i & 1 == 1).map(|i| ds[i]).collect::<Vec<_>>());
             for (kind, a) in super::c02::actions() { if let Ok(r) = catch(|| e.elide_removing_set_with_action(&t, &a)) { out.push((format!("tree{ti}/mask{mask}/{kind:?}"), r)) } }
         }
@@ -60,7 +60,7 @@ pub fn family(th: bool) -> Vec<(String, Envelope)> {
     for (i, m) in families::decode_only().iter().enumerate() { out.push((format!("decode-only{i}:{}", m.show()), bind::build_route(m, bind::Route::Decode))) }
     // envelopes ACCEPTED by the decoder from the structural mutation family of C06 (adversarially decoded ones)
     let mut seen: HashSet<Vec<u8>> = HashSet::new();
-    for (n, b) in super::c06::seeds(if th { 4 } else { 3 }) {
+    for (n, b) in super::c06::seeds(if th { 5 } else { 4 }) {
         let Ok(v) = grammar::parse_cbor(&b) else { continue };
         let mut muts = vec![]; super::c06::mutations(&v, &mut muts, &|x| x, false);
         for (class, mv) in muts { let mb = rdcbor::bytes(&mv); if seen.insert(mb.clone()) { if let Ok(Ok(e)) = catch(|| Envelope::try_from_cbor_data(mb)) { out.push((format!("decoded-mutant:{n}/{class}"), e)) } } }
@@ -197,7 +197,7 @@ pub fn run(ctx: &Ctx) -> i32 {
     let evals = acc.get("calls");
     let cov = json!({"evaluations": evals,
         "rule": "envelope family (trees with obscuration patterns, decorated / obscured assertions with every special predicate on every subject kind, decode-only shapes, envelopes ACCEPTED by the decoder from the structural mutation family) x every operation of the query / transform / obscure / verify / parse / format families, each inside catch_unwind; violations are keyed by panic SITE; distinct = distinct observed envelopes",
-        "exhaustive": true, "bounds": {"tree_weight": if th { 5 } else { 4 }, "operations": ops_.len(), "envelopes": fam.len()}});
+        "exhaustive": true, "bounds": {"tree_weight": if th { 6 } else { 5 }, "operations": ops_.len(), "envelopes": fam.len()}});
     let _ = (M::Known(0), SymmetricKey::from_data([0u8; 32]));
     finish(ctx, acc, "exploration", cov, vec!["builder misuse with a documented precondition (Response::with_result on a failure, empty salt ranges, ur_string before register_tags) is outside the argument menus".into()])
 }
